@@ -7,3 +7,14 @@ from vt.props._units import run_units
 def run(ctx, proofs_ok):
     run_env_property(ctx, proofs_ok, "C05")
     run_units(ctx, proofs_ok)
+
+
+def replay(obj):
+    if obj.get("unit") == "sched":
+        from vt.props import c05_sched
+        return c05_sched.replay(obj)
+    if obj.get("unit") == "graph":
+        from vt.props import c05_graph
+        return c05_graph.replay(obj)
+    import json
+    print(json.dumps(obj, indent=1)[:4000])
